@@ -200,7 +200,9 @@ def oracle_c05(case, reply):
         for t in multis:
             if t not in c.dups:
                 bad.append("set %d: multiple-bindings error names type %d which has a single source" % (c.s["id"], t))
-        if c.imports_ok and c.dups:
+        if c.imports_ok and c.dups and not c.bind_missing and not c.chained:
+            # (a binding whose concrete type is missing is not a source: buildProviderMap reports the
+            #  binding error instead and never registers it — cf. the hypothesis of C05.bpm_dup_named)
             if verdict == "ok":
                 bad.append("set %d accepted although types %s have two sources" % (c.s["id"], c.dups))
             elif not multis:
